@@ -2,7 +2,7 @@
 # tools/seed_store.sh <P>: copies the sub-agent's deliverables from /tmp/wt_<P>/_seeded into /verif/seeded/<P>-<n>/ and evaluates them
 set -u
 P=$1; shift
-WT=/tmp/wt_$P
+WT=${WTPREFIX:-/tmp/wt_}$P
 N=$(ls -d /verif/seeded/$P-* 2>/dev/null | wc -l); N=$((N+1))
 D=/verif/seeded/$P-$N
 mkdir -p $D
